@@ -194,7 +194,11 @@ func (l *yieldLogger) rec(serious bool) {
 	}
 	if l.all > 0 && l.locks != nil {
 		if l.free() {
-			time.Sleep(time.Millisecond + time.Duration(uint64(mix(k, 37))%uint64(l.all)))
+			d := time.Millisecond + time.Duration(uint64(mix(k, 37))%uint64(l.all))
+			if uint64(mix(k, 41))%8 == 0 {
+				d *= 5 // (now and then the sink stalls for good: long enough for a term to end and the next to begin)
+			}
+			time.Sleep(d)
 		}
 		return
 	}
@@ -905,6 +909,12 @@ func execStep(tr *Trace, store *RefStore, rts map[int]*instRT, st Step, apiSeq *
 			}
 			return errs(err)
 		})
+	case "latewev":
+		// a notification of an earlier version of the record, written by somebody else, reaches the instance's watcher now
+		if rt == nil {
+			return
+		}
+		store.lateEvent(st.Inst, rt.spec.Group)
 	case "rereg":
 		// the application registers its callbacks again (the same functions)
 		if rt == nil || rt.spec.Promote == "none" {
